@@ -40,6 +40,7 @@ def degenerate_under(t):
 class C03(C01):
     props_vo = "theories/Props/C03.vo"
     theorems = ["C03_order", "C03_eq_equiv", "C03_top", "C03_top_degenerate_refuted"]
+    points = False
     pred = "C03_holds_b"
     rule = ("typed triples per registered Rust lattice type (as C01); partial_cmp both ways, eq, is_bot, is_top of "
             "a and b compared with the merge flags; non-trivial = not (a=b=c) and a comparison differs from Eq")
